@@ -153,6 +153,9 @@ func runC11(p *Prog, r *Report) {
 	if want("C11.10") {
 		ruleTokenContracts(p, r, "C11.10", 12)
 	}
+	if want("C11.14") {
+		ruleDiscardRemovesAllTables(p, r, "C11.14")
+	}
 	if want("C11.13") {
 		ruleMemInsertSeq(p, r, "C11.13")
 	}
